@@ -18,7 +18,7 @@
 (*                                                                         *)
 (* Table rows: [sg, dg (group paths), pairs (seq of [sk, dk]), shift,      *)
 (* weak, init, any, out, named (indices of the pairs named in the error),  *)
-(* sameobs]                                                                *)
+(* sameobs]; history rows also [prior, prior_out, priorsame]               *)
 (***************************************************************************)
 EXTENDS Tiered, TLC, Json, IOUtils
 
@@ -52,6 +52,10 @@ RowViol(n) ==
      \cup (IF rejected = {} /\ r.out = "ScenarioError" THEN {"C11_valid_connection_rejected"} ELSE {})
      \cup (IF r.out = "other" THEN {"C11_wrong_exception"} ELSE {})
      \cup (IF r.out = "ScenarioError" /\ ~r.sameobs THEN {"C11_rejected_call_left_dataflow_behind"} ELSE {})
+     \* history rows: the call is made after an earlier REFUSED call of the same world (or after a group block that an exception
+     \* left) - "raises exactly when" and "a rejected pair leaves no data-flow behind" mean that this history is irrelevant
+     \cup (IF "prior" \in DOMAIN r /\ r.prior_out # "ScenarioError" THEN {"C11_wrong_exception"} ELSE {})
+     \cup (IF "prior" \in DOMAIN r /\ ~r.priorsame THEN {"C11_earlier_refused_call_or_abandoned_group_changed_the_result"} ELSE {})
 
 ChunkViol(k) == UNION {{<<c, n>> : c \in RowViol(n)} : n \in ((k - 1) * Chunk + 1)..(IF k * Chunk < NR THEN k * Chunk ELSE NR)}
 
